@@ -1,5 +1,7 @@
 import MTfitVerif.Driver.Proto
 import MTfitVerif.Model.LogDomain
+import MTfitVerif.Model.Evidence
+import MTfitVerif.Model.Polarity
 /- dispatch table of the executable model -/
 namespace MTfitVerif.Driver
 open MTfitVerif Proto
@@ -20,7 +22,75 @@ def opLnNorm : P String := do
   let xs ← logps n; done
   pure (outLPs (LogDomain.lnNormalise xs dV))
 
+/-- `lnbe n N v…` -/
+def opLnBE : P String := do
+  let n ← nat; let N ← flt
+  let xs ← logps n; done
+  pure (outLP (Evidence.lnBayesianEvidence xs N))
+
+/-- `modelprob k e…` -/
+def opModelProb : P String := do
+  let k ← nat
+  let es ← flts k; done
+  pure (outFs (Evidence.modelProbabilities es))
+
+/-- `dklest n V N v…` -/
+def opDklEst : P String := do
+  let n ← nat; let V ← flt; let N ← flt
+  let xs ← logps n; done
+  pure (outF (Evidence.dklEstimate xs V N))
+
+/-- `dkl n dV p… q…` -/
+def opDkl : P String := do
+  let n ← nat; let dV ← flt
+  let ps ← logps n; let qs ← logps n; done
+  match Evidence.dkl (List.zip ps qs) dV with
+  | some d => pure (outF d)
+  | none => pure "err:undefined"
+
+/-- `polprob A σ w` → probability -/
+def opPolProb : P String := do
+  let A ← flt; let σ ← flt; let w ← flt; done
+  pure (outF (Polarity.polProb A σ w))
+
+/-- `polprobp A p₊ p₋ w` → probability -/
+def opPolProbP : P String := do
+  let A ← flt; let pp ← flt; let pn ← flt; let w ← flt; done
+  pure (outF (Polarity.polProbP A pp pn w))
+
+def vec6s (n : Nat) : P (List (List Float)) := many n (flts 6)
+
+/-- `polpdf nsta nloc nmt (σ w coeffs[nloc×6])×nsta mts[nmt×6]`
+    → `nloc×nmt` log-likelihoods followed by `nloc×nmt` condition numbers `Σ_s 1/p_s` -/
+def opPolPdf : P String := do
+  let ns ← nat; let nl ← nat; let nm ← nat
+  let sts ← many ns (do
+    let σ ← flt; let w ← flt; let cs ← vec6s nl
+    pure ({ coeffs := cs, sigma := σ, w := w } : Polarity.PolStation Float))
+  let mts ← vec6s nm; done
+  let out := Polarity.polarityLnPdf sts nl mts
+  let kappa := (List.range nl).map fun k => mts.map fun mt =>
+    sumL (sts.map fun s => 1.0 / Polarity.polProb (dot (s.coeffs.getD k []) mt) s.sigma s.w)
+  pure (outLPs out.flatten ++ " " ++ outFs kappa.flatten)
+
+/-- `polprobpdf nsta nloc nmt (p₊ p₋ w coeffs[nloc×6])×nsta mts[nmt×6]` → `nloc×nmt` log-likelihoods -/
+def opPolProbPdf : P String := do
+  let ns ← nat; let nl ← nat; let nm ← nat
+  let sts ← many ns (do
+    let pp ← flt; let pn ← flt; let w ← flt; let cs ← vec6s nl
+    pure ({ coeffs := cs, pp := pp, pn := pn, w := w } : Polarity.PolProbStation Float))
+  let mts ← vec6s nm; done
+  pure (outLPs (Polarity.polarityProbabilityLnPdf sts nl mts).flatten)
+
 def table : List (String × P String) := [
+  ("polprob", opPolProb),
+  ("polprobp", opPolProbP),
+  ("polpdf", opPolPdf),
+  ("polprobpdf", opPolProbPdf),
+  ("lnbe", opLnBE),
+  ("modelprob", opModelProb),
+  ("dklest", opDklEst),
+  ("dkl", opDkl),
   ("erf", opErf),
   ("lnmarg", opLnMarg),
   ("lnnorm", opLnNorm)
